@@ -146,11 +146,13 @@ class Model:
             raise RuntimeError('model driver died')
         return json.loads(out)
 
-    def run(self, spec, actions, orders=(), descs=None, pools=(True, True)):
+    def run(self, spec, actions, orders=(), descs=None, pools=(True, True), hyps=0):
+        """hyps: 1 = also evaluate the hypotheses of the theorems over all plain programs (plain_prog, valid_orders) on this program
+        with these orders; 2 = also the depth-sortedness needed by C06 (exponential in the DAG depth: small programs only)."""
         it = Interner()
         fields, amb = prog_fields(spec, it, orders, descs, pools)
         acts = [action_sx(a, it) for a in actions if a[0] in ('s', 'q', 'c', 'g')]
-        res = self.ask(sx(['run'] + fields + [['sched'] + acts]))
+        res = self.ask(sx(['run'] + fields + [['sched'] + acts] + ([['hyps', str(hyps)]] if hyps else [])))
         res['ambiguous_orders'] = amb
         res['names'] = it.names
         return res
